@@ -530,6 +530,10 @@ class ExecMixin:
                 return base
             if isinstance(base, SymNum) and name == "imag":
                 return 0
+            if not isinstance(base, (RegexObj, ExcObj)):
+                probe = 1.0 if isinstance(base, SymNum) else base
+                if not hasattr(probe, name):
+                    self.raise_builtin("AttributeError", f"{self.type_name(base)!r} object has no attribute {name!r}")
             return NativeMethod(base, name)
         if base is None:
             self.raise_builtin("AttributeError", f"'NoneType' object has no attribute {name!r}")
